@@ -498,6 +498,9 @@ func (c *Conn) Write(p []byte) (int, error) {
 		room := c.window() - len(c.out.buf) - c.out.inflight
 		if room <= 0 {
 			c.ns.unlock()
+			if c.server {
+				Probe("server_write_blocked_on_full_window")
+			}
 			if !c.wdl.IsZero() && !time.Now().Before(c.wdl) {
 				return written, timeoutErr("write", c)
 			}
